@@ -182,6 +182,26 @@ pub fn handle(op: &str, req: &Value) -> Option<Value> {
             let rec_tail: Vec<(u64, u64)> = rec.iter().copied().filter(|e| e.1 >= lo).collect();
             json!({"memory_log": mem_log, "recovered_log": rec, "differs": rec_tail != mem_log, "detail": detail})
         },
+        "raft_vote_stability" => {
+            use tensor_chain::network::{PreVoteResponse, TimeoutNow};
+            let node = build(req);
+            let handler = req["handler"].as_str().unwrap_or("");
+            if handler == "handle_pre_vote_response" {
+                node.start_pre_vote();
+            }
+            let before = snapshot(&node);
+            let m = &req["msg"];
+            let msg = if handler == "handle_pre_vote_response" {
+                Message::PreVoteResponse(PreVoteResponse { term: m["pvr.0"].as_u64().unwrap_or(0), vote_granted: m["pvr.1"].as_bool().unwrap_or(false), voter_id: "p1".into() })
+            } else {
+                Message::TimeoutNow(TimeoutNow { term: m["tn.0"].as_u64().unwrap_or(0), leader_id: "p1".into() })
+            };
+            let _ = node.handle_message(&"p1".to_string(), &msg);
+            let after = snapshot(&node);
+            let bad = after["term"].as_u64() < before["term"].as_u64()
+                || (after["term"] == before["term"] && !before["voted_for"].is_null() && after["voted_for"] != before["voted_for"]);
+            json!({"before": before, "after": after, "violates": bad})
+        },
         "raft_leader_commit" => {
             // leader = with_state + become_leader; then current-term success responses set match_index as in the witness
             let mut r2 = req.clone();
